@@ -179,6 +179,18 @@ def s8(chk: Check, proj: Project, m, fc) -> None:
         chk.ob("S8", key, m.loc(x), ok, f"{dn}[{norm(x.slice)}] == {dn}[i - {P} + len({dn})]: counted from the end, so defaults of the skipped `context` parameter are accounted for" if ok else
                f"the index `{norm(x.slice)}` into `{dn}` is " + ("not a linear function of (i, positional_count, len(defaults)) - a clamp such as max(0, ...) is involved" if lin is None else f"{lin}") +
                f": when `context` itself has a default (def render(self, context=None, a='A')) the tuple is longer than the tag's own parameters and every default is taken from one slot too early")
+    # (a2) one frame for every count: the tag's arguments are indexed AFTER the skipped receiver / context parameters, so every
+    # count of the code object that is compared with such an index went through the skip adjustment first
+    raw_attrs = ("co_argcount", "co_posonlyargcount")
+    for cmp_ in [x for x in ast.walk(fc) if isinstance(x, ast.Compare)]:
+        raws = [y for y in ast.walk(cmp_) if isinstance(y, ast.Attribute) and y.attr in raw_attrs]
+        for y in raws:
+            chk.violated("S8", f"util.template_tag:_validate_params_with_code:raw-count-in-comparison:{y.attr}", m.loc(cmp_),
+                         f"`{short(cmp_)}` compares an index of the TAG's arguments with the raw `{norm(y)}`, which still counts the skipped `self` / `context` parameters: with a `/` in the signature (def render(self, context, a, /, b)) a positionally passed `b` is not recorded as supplied and `{{% tag 1 2 %}}` raises 'missing a required argument', a call Python accepts")
+    adj = [st for st in stmts(fc) if isinstance(st, ast.Assign) and isinstance(st.targets[0], ast.Name) and any(isinstance(y, ast.Attribute) and y.attr == "co_posonlyargcount" for y in ast.walk(st.value))]
+    okadj = bool(adj) and all(any(isinstance(y, ast.Name) and y.id == "skip_params" or (isinstance(y, ast.Constant) and y.value == 2) for y in ast.walk(st.value)) for st in adj)
+    chk.ob("S8", "util.template_tag:_validate_params_with_code:posonly-count-in-tag-frame", m.loc(adj[0]) if adj else m.loc(fc), okadj if adj else None,
+           f"`{short(adj[0])}`: the positional-only count is moved into the tag's frame once, where it is defined" if okadj and adj else "the positional-only count is not reduced by the two skipped parameters")
     # (b) fallback signature: positional skip
     nm, nf = proj.func("node", "NodeMeta.__new__")
     chk.analysed(fkey(nm, nf))
